@@ -145,6 +145,27 @@ def slides_rename_facts(prog):
                             def visit_Name(self_, x):
                                 return _copy.deepcopy(recv) if x.id == "self" else x
                         a = _S().visit(_copy.deepcopy(rets_[0]))
+    if isinstance(a, ast.Call) and not isinstance(a, (ast.ListComp, ast.GeneratorExp)):
+        # `<helper>(<list>)`: a helper of the repository that returns the comprehension over its parameter
+        from sa.inline import resolve_callee as _rc
+
+        try:
+            rc_ = _rc(prog, sl, a, {})
+        except Exception:  # noqa: BLE001
+            rc_ = None
+        if rc_ is not None and hasattr(rc_[0], "node"):
+            hn = rc_[0].node
+            hps = [x.arg for x in hn.args.args][(1 if rc_[1] else 0):]
+            rets_ = [r_.value for r_ in ast.walk(hn) if isinstance(r_, ast.Return) and r_.value is not None]
+            if len(rets_) == 1 and isinstance(rets_[0], (ast.ListComp, ast.GeneratorExp)) and len(hps) == len(a.args) and not a.keywords:
+                import copy as _copy
+
+                m_ = dict(zip(hps, a.args))
+
+                class _S2(ast.NodeTransformer):
+                    def visit_Name(self_, x):
+                        return _copy.deepcopy(m_[x.id]) if x.id in m_ else x
+                a = _S2().visit(_copy.deepcopy(rets_[0]))
     lst = None
     if isinstance(a, (ast.ListComp, ast.GeneratorExp)) and len(a.generators) == 1 and not a.generators[0].ifs \
             and isinstance(a.generators[0].target, ast.Name):
@@ -657,6 +678,10 @@ def run(ctx):
             "deref": "parts[PackURI.from_rel_ref(base_uri, rel.target_ref)] for non-External relationships",
             "only_caller": "iter_valid_rels, after `if partname not in parts: continue` on the same key for Internal relationships",
             "target_modes": ["External", "Internal"]})
+    elif not dd:
+        # the lookup `parts[<name>]` is not in from_xml in a form this rule reads (e.g. behind an object that carries the part
+        # map): nothing is established either way
+        ctx.error("_Relationship.from_xml:parts[target]", "the target-part lookup `parts[...]` was not located in from_xml (parameters %s)" % fparams)
     else:
         ctx.violation("R16.1", "_Relationship.from_xml:parts[target]", "the target-part lookup is not confined behind the dangling-target filter "
                       "(single caller in load_from_xml: %s; same-key guard before the call: %s; two target modes: %s)" % (good, guard_ok, two_valued),
